@@ -387,6 +387,18 @@ def variants(repo):
                                                                    "        dofToUnknown = onp.where(self.isBc.ravel(), onp.cumsum(self.isBc.ravel(), dtype=int) - 1, -1)"), "O1-O3/T5-masks-ids-map"),
         Variant("slice filtered by sign of the map", F, sub("        return Uu[j[i]]", "        return Uu[j[j >= 0]]"), None),
         Variant("slice filtered by negative map", F, sub("        return Uu[j[i]]", "        return Uu[j[j < 0]]"), "O4-O5/T5-scatter-gather-slice"),
+        Variant("bcIndices accumulated per BC and sorted (duplicates for overlapping sets)", F,
+                sub("        self.bcIndices = self.ids[self.isBc]\n", "        acc = onp.array([], dtype=int)\n        for ebc in EssentialBCs:\n            acc = onp.append(acc, self.ids[functionSpace.mesh.nodeSets[ebc.nodeSet], ebc.component])\n        self.bcIndices = onp.sort(acc)\n"),
+                "O1-O3/T5-masks-ids-map"),
+        Variant("bcIndices accumulated per BC, made unique", F,
+                sub("        self.bcIndices = self.ids[self.isBc]\n", "        acc = onp.array([], dtype=int)\n        for ebc in EssentialBCs:\n            acc = onp.append(acc, self.ids[functionSpace.mesh.nodeSets[ebc.nodeSet], ebc.component])\n        self.bcIndices = onp.unique(acc)\n"),
+                None),
+        Variant("fill pass skips elements with at most one unknown", F,
+                sub("        for e,eNodes in enumerate(conns):\n            elDofs = self.ids[eNodes,:]\n", "        for e,eNodes in enumerate(conns):\n            if nElUnknowns[e] <= 1:\n                rangeBegin += onp.square(nElUnknowns[e])\n                continue\n            elDofs = self.ids[eNodes,:]\n"),
+                "O6/T6-hessian-coordinates-and-mask"),
+        Variant("fill pass skips elements without unknowns", F,
+                sub("        for e,eNodes in enumerate(conns):\n            elDofs = self.ids[eNodes,:]\n", "        for e,eNodes in enumerate(conns):\n            if nElUnknowns[e] == 0:\n                continue\n            elDofs = self.ids[eNodes,:]\n"),
+                None),
         Variant("reformat FunctionSpace", F, reformat(), None),
         Variant("alpha-rename assembler", S, alpha_rename("assemble_sparse_stiffness_matrix"), None),
     ]
